@@ -23,6 +23,10 @@ def get_name(expr) -> str | None:
     return None
 
 
+# contracts that can be checked at module import time
+SUPPORTED = frozenset({'has', 'pure', 'raises', 'safe'})
+
+
 class DealFinder(PathFinder):
     @classmethod
     def find_spec(cls, *args, **kwargs):
@@ -108,6 +112,9 @@ class DealLoader:
         if not isinstance(node, ast.Attribute):
             return None
         if node.value.id != 'deal':
+            return None
+        # never touch (let alone call) anything else, like `deal.disable`
+        if node.attr not in SUPPORTED:
             return None
         return getattr(deal, node.attr, None)
 
